@@ -116,7 +116,15 @@ func c04Gen(tier string, seed int64) []core.Case {
 		id := fmt.Sprintf("secp256k1/chain%d", i)
 		cs = append(cs, core.Case{ID: id, Class: id, Kind: "chain", Cost: 40, P: core.P{"curve": "secp256k1", "i": i, "len": 2}})
 	}
-	return runVariants(cs, 12, "reshare")
+	cs = runVariants(cs, 12, "reshare")
+	{
+		sc := sessCfg{"eddsa-resharing", 3, 1, []int{0, 1}, 2, 1, "seeded", 0.5}
+		p := sc.P()
+		p["max"] = 1500
+		id := "short-encodings/eddsa-resharing/until-every-32-byte-field-was-sent-with-a-leading-zero-byte"
+		cs = append(cs, core.Case{ID: id, Class: id, Kind: "short-fields", P: p, Cost: 40})
+	}
+	return cs
 }
 
 type reshareMon struct {
@@ -244,6 +252,10 @@ func c04Run(c core.Case, env *core.Env) core.Result {
 	curve := c.P.Str("curve")
 	if c.Kind == "chain" {
 		c04Chain(&r, c, env)
+		return r
+	}
+	if c.Kind == "short-fields" {
+		shortFieldsRun(&r, env, c.P, c.P.Int("max"))
 		return r
 	}
 	n, t, olds, nn, nt := c.P.Int("n"), c.P.Int("t"), c.P.Int("olds"), c.P.Int("nn"), c.P.Int("nt")
